@@ -119,6 +119,20 @@ pub fn gen(o: &Opts, sink: &mut dyn FnMut(Vec<i64>, String)) {
         c.push(2);
         put!(c);
     }
+    // ... and neither does a unit that has been silent for longer than its receive timeout (150 ms): commands
+    // accepted while the unit is considered offline still go out, the stop-all above all
+    for j in 0..(if o.tier_thorough { 60u64 } else { 8 }) {
+        let mut rng = Rng::new(o.seed, 15_700 + j);
+        let mut c = vec![1000]; c.extend(crate::c10::config(&[(1, 0x4a, None, 3)]));
+        c.push(5); c.push(2);
+        if rng.chance(1, 2) { c.extend([3, 5, 90]); }
+        c.extend([4, 250]);
+        if rng.chance(1, 2) { c.push(2); }
+        for q in 0..(1 + rng.below(3)) { c.extend([3, 5, 100 + q as i64]); }
+        c.extend([3, 0]);               // stop-all while the unit is silent
+        c.push(2);
+        put!(c);
+    }
     // random schedules: any relative speed of producers and handlers
     let mut rng = Rng::new(o.seed, 15);
     let n = if o.tier_thorough { 30_000 } else { 3_000 };
